@@ -175,6 +175,11 @@ func (r *rdbdriver) GetLocationByMap(ipnet *net.IPNet, mapID []byte, context Con
 	copy(fullKey, ipMapRangePointKeyElement)   // prefix, 4 bytes
 	copy(fullKey[4:], mapID)                   // mapID, 2 bytes
 	copy(fullKey[6:], ipnet.IP.To16())
+	if masked := ipnet.IP.Mask(ipnet.Mask); masked != nil {
+		// search from the network address, as the CDB driver does: host bits set
+		// below the client's prefix must not select a longer subnet
+		copy(fullKey[6:], masked.To16())
+	}
 	reqMaskLen, _ := ipnet.Mask.Size()
 	if isIPv4(ipnet.IP) {
 		reqMaskLen += 128 - 32
